@@ -188,7 +188,7 @@ def validate_chunk(tables, traces, flags, invs, workdir, trunc_every, name):
     with open(path, "w") as f:
         for scn, lines in traces.items():
             for rec in lines:
-                if rec.get("a") in ("HarnessError", "DBPanic"):
+                if rec.get("a") in ("HarnessError", "DBPanic", "ProcessCrash"):
                     continue
                 f.write(json.dumps(rec) + "\n")
                 index.append((scn, rec))
@@ -287,15 +287,35 @@ def model_check(module, tables, menu, flags, invs, props, workdir, max_flushes=3
     return run_tlc(mod, name, cfg, workdir, workers=workers or common.NPROC, timeout=timeout)
 
 
-def counterexample_script(tables, menu, flags, inv, workdir, **kw):
+def counterexample_script(tables, menu, flags, inv, workdir, goal="CrashInFlight", allow_close=False, max_scans=0, **kw):
     """Shortest behaviour of SimStore violating inv, as an action list."""
-    extra_cfg = "  Depth = 1000\n  AllowClose = FALSE\n  AllowCrash = TRUE\n  MaxScans = 0\nVIEW SimView\n"
+    extra_cfg = ("  Depth = 1000\n  AllowClose = %s\n  AllowCrash = TRUE\n  MaxScans = %d\n  GoalName = %s\nVIEW SimView\n"
+                 % (tla(allow_close), max_scans, tla(goal)))
     r = model_check("SimStoreCex", tables, menu, flags, ["Cex_" + inv], [], workdir,
                     name="CexRun", extra_cfg=extra_cfg, **kw)
     m = re.search(r'<<"ZVCEX", "(.*)">>', r.out)
     if not m:
+        if not r.ok:
+            open(os.path.join(common.SCRATCH_ROOT, "last_tlc_failure.out"), "w").write(r.out)
+            raise InfraError("goal/counterexample search failed (see .scratch/last_tlc_failure.out):\n" + r.out[-1200:])
         return None
     return json.loads(json.loads('"' + m.group(1) + '"'))
+
+
+def goal_scripts(tables, menu, flags, goals, workdir, **kw):
+    """For every coverage goal of SimStoreCex the shortest behaviour reaching it
+    (None if the goal is unreachable within the bounds)."""
+    from concurrent.futures import ThreadPoolExecutor
+
+    def one(g):
+        return g, counterexample_script(tables, menu, flags, "Goal", os.path.join(workdir, "goal-" + g), goal=g,
+                                        workers=2, **kw)
+    with ThreadPoolExecutor(8) as ex:
+        return dict(ex.map(one, goals))
+
+
+CRASH_GOALS = ["StaleOffsetFile", "OffsetFileAhead", "OffsetFileOnly", "CrashTempWritten", "CrashRenamedNotSwapped",
+               "CrashInFlight", "CrashMemOverFile", "SecondCrash", "CleanCloseReopen"]
 
 
 # ---------------------------------------------------------------- replay + judge
@@ -331,6 +351,14 @@ def run_and_judge(pid, V, bins, scenarios, tables_of, flags, invs, work, array_d
         tables = tables_of(sc)
         acts = [l["a"] for l in lines]
         herr = [l for l in lines if l["a"] in ("HarnessError", "DBPanic")]
+        crash = [l for l in lines if l["a"] == "ProcessCrash"]
+        if crash:
+            if not crash[0]["in_database_code"]:
+                raise InfraError("harness crashed in %s: %s\n%s" % (scn, crash[0]["panic"], crash[0]["stderr_tail"]))
+            rp = common.save_replay(pid, scn, {"scenario": sc, "kind": "process-crash", "panic": crash[0]})
+            V.violation(rp, "%s: the database process crashed: panic: %s (at %s)" % (scn, crash[0]["panic"], crash[0]["top_frame"]))
+            stats["crashed"] = stats.get("crashed", 0) + 1
+            continue
         ncr = acts.count("Crash") + acts.count("Close")
         nfl = acts.count("FlushSwap")
         stats["crashes"] += ncr
@@ -502,6 +530,13 @@ def check_C02(args):
         return jobs
 
     def gen(rng, quick, work, flags):
+        # goal-directed: the shortest behaviour into every restart situation
+        for gi, menu in enumerate([MC_MENU, MENU2] if quick else [MC_MENU, MENU2] + [random_menu(rng, 4) for _ in range(6)]):
+            gs = goal_scripts(MC_TABLES, menu, flags, CRASH_GOALS, os.path.join(work, "goals%d" % gi),
+                              allow_close=True, max_flushes=4, max_crashes=2)
+            for g, h in gs.items():
+                if h:
+                    yield scenario_from_hist("C02-g%d-%s" % (gi, g), MC_TABLES, menu, h), MC_TABLES
         n_menus, per = (6, 25) if quick else (60, 120)
         for mi in range(n_menus):
             menu = random_menu(rng, rng.randint(3, 6))
@@ -529,10 +564,26 @@ def check_C03(args):
         return jobs
 
     def gen(rng, quick, work, flags):
+        # goal-directed: a late point strictly inside an already flushed series, a
+        # flushed point inside the range the memstore spans, clean close/reopen
+        gmenus = [[point(1, 1, 1), point(2, 5, 1), point(3, 3, 1), point(4, 8, 3)],
+                  [point(1, 3, 3, vs=("w", "x")), point(2, 1, 3), point(3, 6, 3), point(4, 4, 4, n=2)]]
+        for gi, menu in enumerate(gmenus):
+            gs = goal_scripts(C03_TABLES, menu, flags, ["LatePointInsideFlushedSeries", "FlushedPointInsideMemSeries",
+                                                        "CleanCloseReopen"],
+                              os.path.join(work, "goals%d" % gi), allow_close=True, max_flushes=3, max_crashes=1)
+            for g, h in gs.items():
+                if h:
+                    yield scenario_from_hist("C03-g%d-%s" % (gi, g), C03_TABLES, menu, h, subsets=rng), C03_TABLES
         n_menus, per = (6, 20) if quick else (50, 100)
         for mi in range(n_menus):
             tabs = rng.choice([C03_TABLES, MC_TABLES])
-            menu = random_menu(rng, rng.randint(4, 8))
+            if mi % 2:
+                menu = random_menu(rng, rng.randint(4, 8))
+            else:
+                # long series: few keys, many periods, out of order
+                menu = random_menu(rng, rng.randint(9, 13), ticks=(1, 14), keys=rng.choice([[1], [3], [1, 3], [3, 4]]),
+                                   nonnumeric=False)
             # flush-heavy behaviours, clean restarts, no crashes; every third menu
             # runs long enough for the 10th (truncating, non-raw) flush
             long = mi % 3 == 0
@@ -699,6 +750,22 @@ def check_C14(args):
         return jobs
 
     def gen(rng, quick, work, flags):
+        gmenu = [point(1, 2, 1), point(2, 3, 3), point(3, 9, 3), point(4, 10, 1), point(5, 6, 1)]
+        gs = goal_scripts(C14_TABLES, gmenu, flags, ["TruncatingFlushOverExpired", "RawFlushOverExpired", "MergeExpiredWithLive"],
+                          os.path.join(work, "goals"), max_flushes=4, max_crashes=0, trunc_every=10)
+        for g, h in gs.items():
+            if h:
+                yield scenario_from_hist("C14-g-%s" % g, C14_TABLES, gmenu, h), C14_TABLES
+        # directed: a flush after every point, so that the 10th (re-encoding,
+        # truncating) flush runs over rows with expired periods
+        for di in range(3 if quick else 20):
+            menu = aging_menu(rng, 13)
+            d = Directed(C14_TABLES, menu)
+            for i in range(len(menu)):
+                d.insert_and_process()
+                for t in C14_TABLES:
+                    d.flush(t.name)
+            yield scenario_from_hist("C14-d%d" % di, C14_TABLES, menu, d.h, subsets=rng), C14_TABLES
         n_menus, per = (6, 16) if quick else (50, 80)
         for mi in range(n_menus):
             tabs = rng.choice([C14_TABLES, C14_TABLES2])
@@ -773,6 +840,16 @@ def check_C15(args):
         return jobs
 
     def gen(rng, quick, work, flags):
+        # (points feed different subsets of the fields, so that columns read under
+        # the wrong field are visible)
+        gmenu = [point(1, 1, 1, vs=("w",)), point(2, 2, 4, vs=("x",)), point(3, 3, 2, vs=("w", "x"))]
+        for gi, fm in enumerate([{"a": [["p", "g", "f"]]}, {"a": [["p", "f", "h", "g"]]}, {"a": [["p", "g"]]}]):
+            gs = goal_scripts(C15_TABLES, gmenu, flags, ["RawFlushOldLayout", "RawFlushOldLayoutAfterRestart", "AlterWithDataInMemory"],
+                              os.path.join(work, "goals%d" % gi), allow_close=True, max_flushes=3, max_crashes=1,
+                              field_menu=fm, trunc_every=10)
+            for g, h in gs.items():
+                if h:
+                    yield scenario_from_hist("C15-g%d-%s" % (gi, g), C15_TABLES, gmenu, h), C15_TABLES
         n_menus, per = (6, 16) if quick else (50, 80)
         for mi in range(n_menus):
             tabs = C15_TABLES
